@@ -101,7 +101,7 @@ class AbstractConstraint(object):
 
     def isSubTypeOf(self, otherConstraint):
         return (otherConstraint is self or
-                not self or
+                not otherConstraint or
                 otherConstraint == self or
                 otherConstraint in self._valueMap)
 
